@@ -114,7 +114,7 @@ theorem compare_eq_zero : ∀ (a b : List Nat), compare a b = 0 ↔ a = b := by
 
 /-- the part of the main-loop invariant that concerns certificates of leaves, generators and orbits -/
 structure GInv (n m : Nat) (nb : Nbrs) (s : LS) : Prop where
-  best : s.currentBest.len ≠ 0 →
+  best : 0 < s.count →
     s.currentBest.toList = certPos nb s.bestPerm.toList n ∧ InvOf s.bestPerm.toList s.bestPermInv
   flLen : s.firstLeaf.len = m ∧ s.firstLeaf.WF
   first : 0 < s.count → ∃ o1, o1.Perm (List.range n) ∧ s.firstLeaf.toList = certPos nb o1 n ∧ InvOf o1 s.flPermInv
@@ -122,7 +122,6 @@ structure GInv (n m : Nat) (nb : Nbrs) (s : LS) : Prop where
   orb : 0 < s.count → Disjoint.Inv s.flOrbits ∧
     ∀ a b, a < n → b < n → Disjoint.rep s.flOrbits a = Disjoint.rep s.flOrbits b →
       Relation.EqvGen (GenRelA s.gens s.ngens) a b
-  orbB : 0 < s.count → Disjoint.Inv s.bestOrbits
   orbSz : s.flOrbits.size = n ∧ s.bestOrbits.size = n
   pinv : s.flPermInv.len = n ∧ s.flPermInv.WF
   bpinv : s.bestPermInv.len = n ∧ s.bestPermInv.WF
@@ -144,25 +143,89 @@ theorem GInv.congr {n m : Nat} {nb : Nbrs} {s s2 : LS} (h : GInv n m nb s)
     (e7 : s2.ngens = s.ngens) (e8 : s2.flOrbits = s.flOrbits) (e9 : s2.bestOrbits = s.bestOrbits)
     (e10 : s2.count = s.count) : GInv n m nb s2 := by
   constructor
-  · rw [e1, e2, e3]; exact h.best
+  · rw [e10, e1, e2, e3]; exact h.best
   · rw [e4]; exact h.flLen
   · rw [e10, e4, e5]; exact h.first
   · rw [e7, e6]; exact h.gens
   · rw [e10, e8, e6, e7]; exact h.orb
-  · rw [e10, e9]; exact h.orbB
   · rw [e8, e9]; exact h.orbSz
   · rw [e5]; exact h.pinv
   · rw [e3]; exact h.bpinv
 
 
+theorem link_size {ds d' : Disjoint.DS} {a b : Nat} (h : Disjoint.link ds a b = .ok d') : d'.size = ds.size := by
+  unfold Disjoint.link at h
+  osplit h <;> (cases h; simp)
+
+theorem union_size {ds d' : Disjoint.DS} {x y : Nat} (h : Disjoint.union ds x y = .ok d') : d'.size = ds.size := by
+  unfold Disjoint.union at h
+  cases h1 : Disjoint.find ds x with
+  | ok r1 =>
+    obtain ⟨d1, px⟩ := r1
+    rw [h1] at h; simp only at h
+    cases h2 : Disjoint.find d1 y with
+    | ok r2 =>
+      obtain ⟨d2, py⟩ := r2
+      rw [h2] at h; simp only at h
+      rw [link_size h, find_size h2, find_size h1]
+    | panic => rw [h2] at h; cases h
+    | outOfFuel => rw [h2] at h; cases h
+  | panic => rw [h1] at h; cases h
+  | outOfFuel => rw [h1] at h; cases h
+
+theorem orbitStep_size {order permInv : Sl Nat} {i : Nat} {st st' : Disjoint.DS × Bool}
+    (h : orbitStep order permInv i st = .ok st') : st'.1.size = st.1.size := by
+  obtain ⟨ds, mm⟩ := st
+  unfold orbitStep at h
+  simp only at h
+  cases hp : permInv.get i with
+  | ok p =>
+    rw [hp] at h; simp only at h
+    cases ho : order.get p with
+    | ok tmp =>
+      rw [ho] at h; simp only at h
+      cases h1 : Disjoint.find ds tmp with
+      | ok r1 =>
+        obtain ⟨d1, q1⟩ := r1
+        rw [h1] at h; simp only at h
+        cases h2 : Disjoint.find d1 i with
+        | ok r2 =>
+          obtain ⟨d2, q2⟩ := r2
+          rw [h2] at h; simp only at h
+          split at h
+          · cases h3 : Disjoint.union d2 i tmp with
+            | ok d3 =>
+              rw [h3] at h; cases h
+              show d3.size = ds.size
+              rw [union_size h3, find_size h2, find_size h1]
+            | panic => rw [h3] at h; cases h
+            | outOfFuel => rw [h3] at h; cases h
+          · cases h
+            show d2.size = ds.size
+            rw [find_size h2, find_size h1]
+        | panic => rw [h2] at h; cases h
+        | outOfFuel => rw [h2] at h; cases h
+      | panic => rw [h1] at h; cases h
+      | outOfFuel => rw [h1] at h; cases h
+    | panic => rw [ho] at h; cases h
+    | outOfFuel => rw [ho] at h; cases h
+  | panic => rw [hp] at h; cases h
+  | outOfFuel => rw [hp] at h; cases h
+
+theorem orbitLoop_size {order permInv : Sl Nat} {n : Nat} {ds ds' : Disjoint.DS} {mm mm' : Bool}
+    (h : forRange (orbitStep order permInv) n 0 (ds, mm) = .ok (ds', mm')) : ds'.size = ds.size := by
+  have := forRange_inv (orbitStep order permInv) (fun _ (st : Disjoint.DS × Bool) => st.1.size = ds.size)
+    n 0 (ds, mm) (ds', mm') rfl (fun i st st' _ _ hst hs => by rw [orbitStep_size hs]; exact hst) h
+  exact this
+
 set_option maxHeartbeats 1000000 in
 /-- the leaf branch keeps `GInv` and leaves the certificate state clean-or-stale-N (`VN`) -/
 theorem leafNode_cert {n m : Nat} {nb : Nbrs} (hnb : NbOK nb n)
-    (hlenm : ∀ o : List Nat, o.Perm (List.range n) → (certPos nb o n).length = m) (hm0 : 0 < m)
+    (hlenm : ∀ o : List Nat, o.Perm (List.range n) → (certPos nb o n).length = m)
     {s s' : LS} {lv : List (Nat × Nat)}
     (hq : StepQ n nb s.currentBest s.firstLeaf (VAny nb s.currentBest s.firstLeaf) (VN nb s.currentBest s.firstLeaf))
     (hc : Core n s) (hl : LevelsOK s.op s.path s.choices lv) (hage : s.op.age = s.path.length)
-    (hg : GInv n m nb s) (h0 : s.count = 0 → s.currentBest.len = 0)
+    (hg : GInv n m nb s)
     (hvc : VClean nb s.op) (hspl : s.op.spl = n)
     (h : leafNode n m s = .ok s') :
     GInv n m nb s' ∧ VN nb s'.currentBest s'.firstLeaf s'.op := by
@@ -172,7 +235,7 @@ theorem leafNode_cert {n m : Nat} {nb : Nbrs} (hnb : NbOK nb n)
   have holen : s.op.order.toList.length = n := by rw [Sl.length_toList _ hc.part.wfOrder, hc.part.lenOrder]
   unfold leafNode at h
   dsimp only at h
-  by_cases hc1 : (compare s.op.value.toList s.currentBest.toList == 1) = true
+  by_cases hc1 : (compare s.op.value.toList s.currentBest.toList == 1 || s.count + 1 == 1) = true
   · rw [if_pos hc1] at h
     cases hrs : s.currentBest.reslice m with
     | panic => rw [hrs] at h; cases h
@@ -200,7 +263,7 @@ theorem leafNode_cert {n m : Nat} {nb : Nbrs} (hnb : NbOK nb n)
             Sl.copyFrom_toList _ hg.pinv.2 _ (by rw [Sl.length_toList _ hbpiW, hbpiL, hg.pinv.1])
           have hforb : (Sl.copyFrom ⟨s.flOrbits, s.flOrbits.size⟩ bestOrbits'.toList).data = Disjoint.new n := by
             rw [copyFrom_data_full _ _ (by rw [r4]; simp [Disjoint.new, hg.orbSz.1]), r4]
-          refine ⟨?_, Or.inl hvc⟩
+          refine ⟨?_, hvc⟩
           constructor
           · intro _; exact ⟨by rw [hcbT, hbpT]; exact hval, by rw [hbpT]; exact r3⟩
           · exact ⟨by rw [Sl.copyFrom_len]; exact hg.flLen.1, Sl.copyFrom_wf hg.flLen.2 _⟩
@@ -216,7 +279,6 @@ theorem leafNode_cert {n m : Nat} {nb : Nbrs} (hnb : NbOK nb n)
             intro a b ha hb hab
             rw [Disjoint.rep_new n a ha, Disjoint.rep_new n b hb] at hab
             subst hab; exact EqvGen.refl _
-          · intro _; show Disjoint.Inv bestOrbits'; exact r5
           · refine ⟨?_, ?_⟩
             · show (Sl.copyFrom ⟨s.flOrbits, s.flOrbits.size⟩ bestOrbits'.toList).data.size = n
               rw [hforb]; exact Disjoint.size_new n
@@ -226,59 +288,52 @@ theorem leafNode_cert {n m : Nat} {nb : Nbrs} (hnb : NbOK nb n)
         · rw [if_neg hcnt] at h
           cases h
           have hpos : 0 < s.count := by omega
-          refine ⟨?_, Or.inl hvc⟩
+          refine ⟨?_, hvc⟩
           constructor
           · intro _; exact ⟨by rw [hcbT, hbpT]; exact hval, by rw [hbpT]; exact r3⟩
           · exact hg.flLen
           · intro _; exact hg.first hpos
           · exact hg.gens
           · intro _; exact hg.orb hpos
-          · intro _; show Disjoint.Inv bestOrbits'; exact r5
           · exact ⟨hg.orbSz.1, by show bestOrbits'.size = n; rw [r4]; exact Disjoint.size_new n⟩
           · exact hg.pinv
           · exact ⟨hbpiL, hbpiW⟩
       · cases h
       · cases h
-  · have hc1' : (compare s.op.value.toList s.currentBest.toList == 1) = false := by simpa using hc1
+  · have hc1' : (compare s.op.value.toList s.currentBest.toList == 1 || s.count + 1 == 1) = false := by
+      simpa using hc1
+    have hpos : 0 < s.count := by
+      simp only [Bool.or_eq_false_iff, beq_eq_false_iff_ne, ne_eq] at hc1'
+      omega
+    have hpos' : 0 < s.count + 1 → 0 < s.count := fun _ => hpos
     rw [if_neg hc1] at h
-    have hnil : ∀ t : Sl Nat, t.len = 0 → t.toList = [] := by
-      intro t ht; simp [Sl.toList, ht]
     by_cases hc0 : (compare s.op.value.toList s.currentBest.toList == 0) = true
     · rw [if_pos hc0] at h
       have heq : s.op.value.toList = s.currentBest.toList := (compare_eq_zero _ _).1 (by simpa using hc0)
-      have hcbne : s.currentBest.len ≠ 0 := by
-        intro hz
-        rw [hnil _ hz] at heq
-        rw [heq] at hvlen; simp at hvlen; omega
-      have hpos : 0 < s.count := by
-        rcases Nat.eq_zero_or_pos s.count with hz | hp
-        · exact absurd (h0 hz) hcbne
-        · exact hp
-      obtain ⟨b1, b2⟩ := hg.best hcbne
-      have hbperm := hc.bestPerm hcbne
+      obtain ⟨b1, b2⟩ := hg.best hpos
+      have hbperm := hc.bestPerm hpos
       split at h
       · rename_i bestOrbits' mm1 hloop1
         split at h
         · rename_i flOrbits' merges hloop2
           split at h
           · rename_i gens' ngens' hrec
-            obtain ⟨j1, j2, _⟩ := orbitLoop_spec (hg.orbB hpos) hg.orbSz.2 hloop1
+            have j2 : bestOrbits'.size = n := by rw [orbitLoop_size hloop1]; exact hg.orbSz.2
             obtain ⟨o1f, o2f⟩ := hg.orb hpos
             obtain ⟨k1, k2, k3, k4⟩ := sameCert_step hnb hbperm hc.part.perm hc.part.lenOrder b2
               (by rw [← b1, ← heq, hval]) o1f hg.orbSz.1 hg.gens o2f hloop2 hrec
             obtain ⟨lv', c1, c2, c3, c4, c5⟩ := backJump_spec hq (n := n) (lv := lv)
-              (by exact Core.congr hc rfl rfl rfl rfl) (by exact hl) (by exact hage) (by exact Or.inl hvc) h
+              (by exact Core.congr hc rfl rfl rfl hpos') (by exact hl) (by exact hage) (by exact hvc) h
             refine ⟨?_, by rw [c4]; exact c5⟩
             refine GInv.congr (s := { s with count := s.count + 1, bestOrbits := bestOrbits', flOrbits := flOrbits', gens := gens', ngens := ngens' })
               ?_ (by rw [c4]) (by rw [c4]) (by rw [c4]) (by rw [c4]) (by rw [c4])
               (by rw [c4]) (by rw [c4]) (by rw [c4]) (by rw [c4]) (by rw [c4])
             constructor
-            · exact hg.best
+            · intro _; exact hg.best hpos
             · exact hg.flLen
             · intro _; exact hg.first hpos
             · exact k3
             · intro _; exact ⟨k1, k4⟩
-            · intro _; exact j1
             · exact ⟨k2, j2⟩
             · exact hg.pinv
             · exact hg.bpinv
@@ -292,19 +347,6 @@ theorem leafNode_cert {n m : Nat} {nb : Nbrs} (hnb : NbOK nb n)
       by_cases hcf : (compare s.op.value.toList s.firstLeaf.toList == 0) = true
       · rw [if_pos hcf] at h
         have heq : s.op.value.toList = s.firstLeaf.toList := (compare_eq_zero _ _).1 (by simpa using hcf)
-        -- comp = -1 needs a non-empty currentBest, hence a first leaf
-        have hcbne : s.currentBest.len ≠ 0 := by
-          intro hz
-          have hcn := hnil _ hz
-          rw [hcn, compare_nil_right] at hc1'
-          have hvne : s.op.value.toList ≠ [] := by
-            intro hv; rw [hv] at hvlen; simp at hvlen; omega
-          rw [if_neg hvne] at hc1'
-          simp at hc1'
-        have hpos : 0 < s.count := by
-          rcases Nat.eq_zero_or_pos s.count with hz | hp
-          · exact absurd (h0 hz) hcbne
-          · exact hp
         obtain ⟨o1, p1, p2, p3⟩ := hg.first hpos
         split at h
         · rename_i flOrbits' merges hloop2
@@ -314,18 +356,17 @@ theorem leafNode_cert {n m : Nat} {nb : Nbrs} (hnb : NbOK nb n)
             obtain ⟨k1, k2, k3, k4⟩ := sameCert_step hnb p1 hc.part.perm hc.part.lenOrder p3
               (by rw [← p2, ← heq, hval]) o1f hg.orbSz.1 hg.gens o2f hloop2 hrec
             obtain ⟨lv', c1, c2, c3, c4, c5⟩ := backJump_spec hq (n := n) (lv := lv)
-              (by exact Core.congr hc rfl rfl rfl rfl) (by exact hl) (by exact hage) (by exact Or.inl hvc) h
+              (by exact Core.congr hc rfl rfl rfl hpos') (by exact hl) (by exact hage) (by exact hvc) h
             refine ⟨?_, by rw [c4]; exact c5⟩
             refine GInv.congr (s := { s with count := s.count + 1, flOrbits := flOrbits', gens := gens', ngens := ngens' })
               ?_ (by rw [c4]) (by rw [c4]) (by rw [c4]) (by rw [c4]) (by rw [c4])
               (by rw [c4]) (by rw [c4]) (by rw [c4]) (by rw [c4]) (by rw [c4])
             constructor
-            · exact hg.best
+            · intro _; exact hg.best hpos
             · exact hg.flLen
             · intro _; exact hg.first hpos
             · exact k3
             · intro _; exact ⟨k1, k4⟩
-            · intro _; exact hg.orbB hpos
             · exact ⟨k2, hg.orbSz.2⟩
             · exact hg.pinv
             · exact hg.bpinv
@@ -335,70 +376,34 @@ theorem leafNode_cert {n m : Nat} {nb : Nbrs} (hnb : NbOK nb n)
         · cases h
       · rw [if_neg hcf] at h
         cases h
-        refine ⟨?_, Or.inl hvc⟩
-        have hpos : 0 < s.count ∨ s.count = 0 := by omega
+        refine ⟨?_, hvc⟩
         constructor
-        · exact hg.best
+        · intro _; exact hg.best hpos
         · exact hg.flLen
-        · intro _
-          rcases hpos with hp | hz
-          · exact hg.first hp
-          · -- count = 0: currentBest is empty, so the comparison gave 1: impossible here
-            exfalso
-            have hcn := hnil _ (h0 hz)
-            rw [hcn, compare_nil_right] at hc1'
-            have hvne : s.op.value.toList ≠ [] := by
-              intro hv; rw [hv] at hvlen; simp at hvlen; omega
-            rw [if_neg hvne] at hc1'
-            simp at hc1'
+        · intro _; exact hg.first hpos
         · exact hg.gens
-        · intro _
-          rcases hpos with hp | hz
-          · exact hg.orb hp
-          · exfalso
-            have hcn := hnil _ (h0 hz)
-            rw [hcn, compare_nil_right] at hc1'
-            have hvne : s.op.value.toList ≠ [] := by
-              intro hv; rw [hv] at hvlen; simp at hvlen; omega
-            rw [if_neg hvne] at hc1'
-            simp at hc1'
-        · intro _
-          rcases hpos with hp | hz
-          · exact hg.orbB hp
-          · exfalso
-            have hcn := hnil _ (h0 hz)
-            rw [hcn, compare_nil_right] at hc1'
-            have hvne : s.op.value.toList ≠ [] := by
-              intro hv; rw [hv] at hvlen; simp at hvlen; omega
-            rw [if_neg hvne] at hc1'
-            simp at hc1'
+        · intro _; exact hg.orb hpos
         · exact hg.orbSz
         · exact hg.pinv
         · exact hg.bpinv
 
-
-
 /-- the certificate closure properties of the stepping loops -/
-theorem certStepQ (hx : ExpandCert) (hy : ExpandStale) (n : Nat) (nb : Nbrs) (cb fl : Sl Nat) :
+theorem certStepQ (hx : ExpandCert) (n : Nat) (nb : Nbrs) (cb fl : Sl Nat) :
     StepQ n nb cb fl (VAny nb cb fl) (VN nb cb fl) where
   na := fun _ h => h.any
   deage := fun _ _ hp ha hage hv hd => deage_cert hp ha hage hv hd
-  split := fun _ _ _ _ hp ha hi hns hv hs => splitBin_cert hx hy hp ha hi hns hv hs
+  split := fun _ _ _ _ hp ha hi hns hv hs => splitBin_cert hx hp ha hi hns hv hs
 
-/-- at a leaf (all bins singletons) a `VN` state is clean and the whole order is the prefix -/
+/-- at a leaf (all bins singletons) the whole order is the prefix -/
 theorem leaf_clean {n : Nat} {nb : Nbrs} {cb fl : Sl Nat} {op : OP} (hp : PartInv n op) (hleaf : op.binDividers.len = n)
     (hv : VN nb cb fl op) : VClean nb op ∧ op.spl = n := by
   have hsing := leaf_dividers hp hleaf
-  rcases hv with hc | ⟨hs, hne⟩
-  · refine ⟨hc, ?_⟩
-    have := hc.pre.le
-    rcases Nat.lt_or_ge op.spl n with hlt | hge
-    · exact absurd (hsing _ hlt) hc.pre.next
-    · omega
-  · exfalso
-    have := hs.lt
-    rw [hp.lenOrder] at this
-    exact hne (hsing _ this)
+  have hc : VClean nb op := hv
+  refine ⟨hc, ?_⟩
+  have := hc.pre.le
+  rcases Nat.lt_or_ge op.spl n with hlt | hge
+  · exact absurd (hsing _ hlt) hc.pre.next
+  · omega
 
 /-- the certificate part of the main-loop invariant -/
 structure CInv (n m : Nat) (nb : Nbrs) (s : LS) (worse : Bool) : Prop where
@@ -406,25 +411,214 @@ structure CInv (n m : Nat) (nb : Nbrs) (s : LS) (worse : Bool) : Prop where
   vn : worse = false → VN nb s.currentBest s.firstLeaf s.op
   va : VAny nb s.currentBest s.firstLeaf s.op
 
-theorem GInv.of_stepFrame {n m : Nat} {nb : Nbrs} {s s' : LS} (h : GInv n m nb s) (f : StepFrame s s') : GInv n m nb s' := by
+theorem GInv.of_stepFrame {n m : Nat} {nb : Nbrs} {s s' : LS} (h : GInv n m nb s) (f : StepFrame s s')
+    (hsz : s'.bestOrbits.size = s.bestOrbits.size) : GInv n m nb s' := by
   unfold StepFrame at f
-  exact h.congr (by rw [f]) (by rw [f]) (by rw [f]) (by rw [f]) (by rw [f]) (by rw [f]) (by rw [f]) (by rw [f])
-    (by rw [f]) (by rw [f])
+  constructor
+  · rw [f]; exact h.best
+  · rw [f]; exact h.flLen
+  · rw [f]; exact h.first
+  · rw [f]; exact h.gens
+  · rw [f]; exact h.orb
+  · exact ⟨by rw [f]; exact h.orbSz.1, by rw [hsz]; exact h.orbSz.2⟩
+  · rw [f]; exact h.pinv
+  · rw [f]; exact h.bpinv
+
+
+/-! ## an additional invariant of `order` (the vertex classes) through the main loop -/
+
+/-- closure properties of an invariant `PO` of the partition that concerns only `order`, the dividers and their ages;
+`PL` is what it says about the order of a leaf, `R` what follows for the map between two such leaves -/
+structure OrdQ (n : Nat) (nb : Nbrs) (PO : OP → Prop) (PL R : List Nat → Prop) : Prop where
+  frame : ∀ op op' : OP, op'.order = op.order → op'.binDividers = op.binDividers → op'.binAges = op.binAges →
+    PO op → PO op'
+  deage : ∀ op op', PartInv n op → AgeInv op → 0 < op.age → PO op → deage op = .ok op' → PO op'
+  split : ∀ (cb fl : Sl Nat) op op' i w, PartInv n op → AgeInv op → i < n → NonSingleton op.binDividers.toList i →
+    PO op → splitBin nb cb fl op i = .ok (w, op') → PO op'
+  refine : ∀ (cb fl : Sl Nat) (opts : Options) op op' sc sc' w, PartInv n op → AgeInv op → ScratchOK n sc → PO op →
+    refine nb cb fl opts op sc = .ok (w, op', sc') → PO op'
+  leaf : ∀ op : OP, PO op → PL op.order.toList
+  rel : ∀ o1 o2 : List Nat, o1.Perm (List.range n) → o2.Perm (List.range n) → PL o1 → PL o2 → R (transport n o1 o2)
+
+theorem OrdQ.stepQ {n : Nat} {nb : Nbrs} {PO : OP → Prop} {PL R : List Nat → Prop} (h : OrdQ n nb PO PL R)
+    (cb fl : Sl Nat) : StepQ n nb cb fl PO PO where
+  na := fun _ hq => hq
+  deage := fun op op' hp ha hage hq hd => h.deage op op' hp ha hage hq hd
+  split := fun op op' i w hp ha hi hns hq hs =>
+    ⟨fun _ => h.split cb fl op op' i w hp ha hi hns hq hs, fun _ => h.split cb fl op op' i w hp ha hi hns hq hs⟩
+
+/-- the reference leaves satisfy `PL`, the recorded generators satisfy `R` -/
+structure KInv (PL R : List Nat → Prop) (n : Nat) (s : LS) : Prop where
+  best : 0 < s.count → PL s.bestPerm.toList
+  first : 0 < s.count → ∃ o1, o1.Perm (List.range n) ∧ PL o1 ∧ InvOf o1 s.flPermInv
+  gens : ∀ k, k < s.ngens → ∃ γ, s.gens[k]? = some γ ∧ R γ.toList
+
+theorem KInv.congr {PL R : List Nat → Prop} {n : Nat} {s s2 : LS} (h : KInv PL R n s)
+    (e2 : s2.bestPerm = s.bestPerm) (e5 : s2.flPermInv = s.flPermInv) (e6 : s2.gens = s.gens)
+    (e7 : s2.ngens = s.ngens) (e10 : s2.count = s.count) : KInv PL R n s2 := by
+  constructor
+  · rw [e10, e2]; exact h.best
+  · rw [e10, e5]; exact h.first
+  · rw [e7, e6]; exact h.gens
+
+theorem KInv.of_stepFrame {PL R : List Nat → Prop} {n : Nat} {s s' : LS} (h : KInv PL R n s) (f : StepFrame s s') :
+    KInv PL R n s' := by
+  unfold StepFrame at f
+  constructor
+  · rw [f]; exact h.best
+  · rw [f]; exact h.first
+  · rw [f]; exact h.gens
+
+/-- the generator recorded at an "equal certificate" event is the transport between the two leaves -/
+theorem sameCert_cls {n : Nat} {R : List Nat → Prop} {order pinv : Sl Nat} {o1 : List Nat}
+    {gens gens' : Array (Sl Nat)} {ngens ngens' : Nat} {merges : Bool}
+    (ho1 : o1.Perm (List.range n)) (hlen : order.len = n) (hinvof : InvOf o1 pinv)
+    (hR : R (transport n o1 order.toList))
+    (hgens : ∀ k, k < ngens → ∃ γ, gens[k]? = some γ ∧ R γ.toList)
+    (hrec : (if merges = true then recordGenerator n order pinv gens ngens else Outcome.ok (gens, ngens)) = .ok (gens', ngens')) :
+    ∀ k, k < ngens' → ∃ γ, gens'[k]? = some γ ∧ R γ.toList := by
+  by_cases hm : merges = true
+  · rw [if_pos hm] at hrec
+    obtain ⟨r1, r2, r3, r4, tmp, t1, t2, t3, t4, t5⟩ := recordGenerator_spec hlen hrec
+    subst r1
+    have htmp : tmp.toList = transport n o1 order.toList := by
+      rw [← transport_eq (o2 := order.toList) (pinv := pinv.toList) ho1 hinvof]
+      apply List.ext_getElem?
+      intro i
+      by_cases hi : i < n
+      · obtain ⟨p, v, hp, hv, hv'⟩ := t5 i hi
+        rw [hv', List.getElem?_map, List.getElem?_range hi]
+        simp only [Option.map_some]
+        have hp' := Sl.get_eq_toList.1 hp
+        have hvv := Sl.get_eq_toList.1 hv
+        simp only [List.getD_eq_getElem?_getD, hp', Option.getD_some, hvv]
+      · rw [List.getElem?_eq_none (by omega), List.getElem?_eq_none (by simp; omega)]
+    intro k hk
+    by_cases hkn : k = ngens
+    · subst hkn; exact ⟨tmp, t1, by rw [htmp]; exact hR⟩
+    · obtain ⟨γ, g1, g2⟩ := hgens k (by omega)
+      exact ⟨γ, by rw [r4 k hkn]; exact g1, g2⟩
+  · rw [if_neg hm] at hrec
+    cases hrec
+    exact hgens
 
 set_option maxHeartbeats 1000000 in
-theorem mainLoop_cert (hst : StablePerm) (hx : ExpandCert) (hy : ExpandStale) {n m : Nat} {nb : Nbrs}
-    (hnb : NbOK nb n) (hlenm : ∀ o : List Nat, o.Perm (List.range n) → (certPos nb o n).length = m) (hm0 : 0 < m)
-    (he : HasEdge nb n) :
+/-- the leaf branch keeps `KInv` and the invariant of `order` -/
+theorem leafNode_cls {n m : Nat} {nb : Nbrs} {PO : OP → Prop} {PL R : List Nat → Prop} (hO : OrdQ n nb PO PL R)
+    {s s' : LS} {lv : List (Nat × Nat)}
+    (hc : Core n s) (hl : LevelsOK s.op s.path s.choices lv) (hage : s.op.age = s.path.length)
+    (hg : GInv n m nb s) (hk : KInv PL R n s) (hpo : PO s.op)
+    (h : leafNode n m s = .ok s') :
+    KInv PL R n s' ∧ PO s'.op := by
+  have hpl : PL s.op.order.toList := hO.leaf _ hpo
+  have holen : s.op.order.toList.length = n := by rw [Sl.length_toList _ hc.part.wfOrder, hc.part.lenOrder]
+  unfold leafNode at h
+  dsimp only at h
+  by_cases hc1 : (compare s.op.value.toList s.currentBest.toList == 1 || s.count + 1 == 1) = true
+  · rw [if_pos hc1] at h
+    cases hrs : s.currentBest.reslice m with
+    | panic => rw [hrs] at h; cases h
+    | outOfFuel => rw [hrs] at h; cases h
+    | ok cb =>
+      rw [hrs] at h
+      simp only at h
+      split at h
+      · rename_i bestPermInv' bestOrbits' hloop
+        obtain ⟨r1, r2, r3, r4, r5, _⟩ := resetLoop_spec hc.part.perm hc.part.wfOrder hc.part.lenOrder hg.orbSz.2 hloop
+        have hbpT : (s.bestPerm.copyFrom s.op.order.toList).toList = s.op.order.toList :=
+          Sl.copyFrom_toList _ hc.bestWf _ (by rw [holen, hc.bestLen])
+        have hbpiW : bestPermInv'.WF := by
+          have := hg.bpinv.2; unfold Sl.WF at this ⊢; omega
+        have hbpiL : bestPermInv'.len = n := by rw [r1]; exact hg.bpinv.1
+        by_cases hcnt : s.count + 1 = 1
+        · rw [if_pos hcnt] at h
+          cases h
+          have hfpT : (s.flPermInv.copyFrom bestPermInv'.toList).toList = bestPermInv'.toList :=
+            Sl.copyFrom_toList _ hg.pinv.2 _ (by rw [Sl.length_toList _ hbpiW, hbpiL, hg.pinv.1])
+          refine ⟨⟨fun _ => ?_, fun _ => ?_, hk.gens⟩, hpo⟩
+          · show PL (s.bestPerm.copyFrom s.op.order.toList).toList
+            rw [hbpT]; exact hpl
+          · exact ⟨s.op.order.toList, hc.part.perm, hpl, by
+              intro i x hx; show (s.flPermInv.copyFrom bestPermInv'.toList).toList[x]? = some i
+              rw [hfpT]; exact r3 i x hx⟩
+        · rw [if_neg hcnt] at h
+          cases h
+          have hpos : 0 < s.count := by omega
+          refine ⟨⟨fun _ => ?_, fun _ => hk.first hpos, hk.gens⟩, hpo⟩
+          show PL (s.bestPerm.copyFrom s.op.order.toList).toList
+          rw [hbpT]; exact hpl
+      · cases h
+      · cases h
+  · have hc1' : (compare s.op.value.toList s.currentBest.toList == 1 || s.count + 1 == 1) = false := by
+      simpa using hc1
+    have hpos : 0 < s.count := by
+      simp only [Bool.or_eq_false_iff, beq_eq_false_iff_ne, ne_eq] at hc1'
+      omega
+    have hpos' : 0 < s.count + 1 → 0 < s.count := fun _ => hpos
+    rw [if_neg hc1] at h
+    by_cases hc0 : (compare s.op.value.toList s.currentBest.toList == 0) = true
+    · rw [if_pos hc0] at h
+      obtain ⟨_, b2⟩ := hg.best hpos
+      have hbperm := hc.bestPerm hpos
+      split at h
+      · rename_i bestOrbits' mm1 hloop1
+        split at h
+        · rename_i flOrbits' merges hloop2
+          split at h
+          · rename_i gens' ngens' hrec
+            have k3 := sameCert_cls (R := R) hbperm hc.part.lenOrder b2
+              (hO.rel _ _ hbperm hc.part.perm (hk.best hpos) hpl) hk.gens hrec
+            obtain ⟨lv', c1, c2, c3, c4, c5⟩ := backJump_spec (hO.stepQ s.currentBest s.firstLeaf) (n := n) (lv := lv)
+              (by exact Core.congr hc rfl rfl rfl hpos') (by exact hl) (by exact hage) (by exact hpo) h
+            refine ⟨?_, c5⟩
+            refine KInv.congr (s := { s with count := s.count + 1, bestOrbits := bestOrbits', flOrbits := flOrbits', gens := gens', ngens := ngens' })
+              ?_ (by rw [c4]) (by rw [c4]) (by rw [c4]) (by rw [c4]) (by rw [c4])
+            exact ⟨fun _ => hk.best hpos, fun _ => hk.first hpos, k3⟩
+          · cases h
+          · cases h
+        · cases h
+        · cases h
+      · cases h
+      · cases h
+    · rw [if_neg hc0] at h
+      by_cases hcf : (compare s.op.value.toList s.firstLeaf.toList == 0) = true
+      · rw [if_pos hcf] at h
+        obtain ⟨o1, p1, p2, p3⟩ := hk.first hpos
+        split at h
+        · rename_i flOrbits' merges hloop2
+          split at h
+          · rename_i gens' ngens' hrec
+            have k3 := sameCert_cls (R := R) p1 hc.part.lenOrder p3
+              (hO.rel _ _ p1 hc.part.perm p2 hpl) hk.gens hrec
+            obtain ⟨lv', c1, c2, c3, c4, c5⟩ := backJump_spec (hO.stepQ s.currentBest s.firstLeaf) (n := n) (lv := lv)
+              (by exact Core.congr hc rfl rfl rfl hpos') (by exact hl) (by exact hage) (by exact hpo) h
+            refine ⟨?_, c5⟩
+            refine KInv.congr (s := { s with count := s.count + 1, flOrbits := flOrbits', gens := gens', ngens := ngens' })
+              ?_ (by rw [c4]) (by rw [c4]) (by rw [c4]) (by rw [c4]) (by rw [c4])
+            exact ⟨fun _ => hk.best hpos, fun _ => hk.first hpos, k3⟩
+          · cases h
+          · cases h
+        · cases h
+        · cases h
+      · rw [if_neg hcf] at h
+        cases h
+        exact ⟨⟨fun _ => hk.best hpos, fun _ => hk.first hpos, hk.gens⟩, hpo⟩
+
+set_option maxHeartbeats 1000000 in
+theorem mainLoop_cert (hst : StablePerm) (hx : ExpandCert) {n m : Nat} {nb : Nbrs}
+    {PO : OP → Prop} {PL R : List Nat → Prop} (hO : OrdQ n nb PO PL R)
+    (hnb : NbOK nb n) (hlenm : ∀ o : List Nat, o.Perm (List.range n) → (certPos nb o n).length = m) :
     ∀ (fuel : Nat) (worse : Bool) (s s' : LS), MInv n m nb s → (s.count = 0 → worse = false) → CInv n m nb s worse →
-      mainLoop nb n m fuel worse s = .ok s' → GInv n m nb s' ∧ 0 < s'.count := by
+      KInv PL R n s → PO s.op →
+      mainLoop nb n m fuel worse s = .ok s' → GInv n m nb s' ∧ 0 < s'.count ∧ KInv PL R n s' := by
   intro fuel
   induction fuel with
-  | zero => intro worse s s' _ _ _ h; simp [mainLoop] at h
+  | zero => intro worse s s' _ _ _ _ _ h; simp [mainLoop] at h
   | succ f ih =>
-    intro worse s s' hI hw hC h
+    intro worse s s' hI hw hC hK hP h
     rw [mainLoop] at h
     obtain ⟨lv, hlv⟩ := hI.lev
-    have hnode := node_step he hI hw hlv
+    have hnode := node_step hI hw hlv
     cases hs1 : (if (!worse && s.op.binDividers.len == n) = true then leafNode n m s
         else if (!worse) = true then innerNode s else Outcome.ok s) with
     | panic => rw [hs1] at h; cases h
@@ -441,8 +635,8 @@ theorem mainLoop_cert (hst : StablePerm) (hx : ExpandCert) (hy : ExpandStale) {n
         · rw [if_pos hleaf] at hs1
           simp only [Bool.and_eq_true, Bool.not_eq_true', beq_iff_eq] at hleaf
           obtain ⟨hvc, hspl⟩ := leaf_clean hI.core.part hleaf.2 (hC.vn hleaf.1)
-          obtain ⟨q1, q2⟩ := leafNode_cert hnb hlenm hm0 (certStepQ hx hy n nb s.currentBest s.firstLeaf)
-            hI.core hlv hI.age hC.g (fun h0 => (hI.phase1 h0).1) hvc hspl hs1
+          obtain ⟨q1, q2⟩ := leafNode_cert hnb hlenm (certStepQ hx n nb s.currentBest s.firstLeaf)
+            hI.core hlv hI.age hC.g hvc hspl hs1
           exact ⟨q1, q2.any, fun _ => q2, fun _ => q2⟩
         · rw [if_neg hleaf] at hs1
           by_cases hnw : (!worse) = true
@@ -462,28 +656,49 @@ theorem mainLoop_cert (hst : StablePerm) (hx : ExpandCert) (hy : ExpandStale) {n
             have hwt : worse = true := by simpa using hnw
             exact ⟨hC.g, hC.va, fun hsk => (by rw [hI.skip] at hsk; cases hsk), fun hwf => (by rw [hwt] at hwf; cases hwf)⟩
       obtain ⟨gg1, va1, vs1, _⟩ := hcert1
+      have hcls1 : KInv PL R n s1 ∧ PO s1.op := by
+        by_cases hleaf : (!worse && s.op.binDividers.len == n) = true
+        · rw [if_pos hleaf] at hs1
+          exact leafNode_cls hO hI.core hlv hI.age hC.g hK hP hs1
+        · rw [if_neg hleaf] at hs1
+          by_cases hnw : (!worse) = true
+          · rw [if_pos hnw] at hs1
+            unfold innerNode at hs1
+            split at hs1
+            · cases hs1
+              exact ⟨⟨hK.best, hK.first, hK.gens⟩, hP⟩
+            · cases hs1
+              exact ⟨hK, hP⟩
+            · cases hs1
+            · cases hs1
+          · rw [if_neg hnw] at hs1
+            cases hs1
+            exact ⟨hK, hP⟩
       cases hst2 : stepLoop nb s1.path.length s1 with
       | panic => rw [hst2] at h; cases h
       | outOfFuel => rw [hst2] at h; cases h
       | ok r =>
         obtain ⟨b, s2⟩ := r
         rw [hst2] at h
-        obtain ⟨lv2, c2, fr2, l2, g2, t2, e2, n2, a2⟩ := stepLoop_spec (certStepQ hx hy n nb s1.currentBest s1.firstLeaf)
+        obtain ⟨lv2, c2, fr2, l2, g2, t2, e2, n2, a2, z2⟩ := stepLoop_spec (certStepQ hx n nb s1.currentBest s1.firstLeaf)
           _ s1 lv1 b s2 c1 l1 g1 rfl rfl va1 vs1 hst2
         have hcnt : s2.count = s1.count := by rw [fr2]
         have hcb : s2.currentBest = s1.currentBest := by rw [fr2]
         have hfl : s2.firstLeaf = s1.firstLeaf := by rw [fr2]
         have hsc : s2.sc = s1.sc := by rw [fr2]
-        have gg2 : GInv n m nb s2 := gg1.of_stepFrame fr2
+        have gg2 : GInv n m nb s2 := gg1.of_stepFrame fr2 z2
+        have kk2 : KInv PL R n s2 := hcls1.1.of_stepFrame fr2
+        obtain ⟨_, _, _, _, _, _, _, _, po2, _⟩ := stepLoop_spec (hO.stepQ s1.currentBest s1.firstLeaf)
+          _ s1 lv1 b s2 c1 l1 g1 rfl rfl hcls1.2 (fun _ => hcls1.2) hst2
         cases b with
         | false =>
           simp only at h
           cases h
           have hpos : 0 < s1.count := by
             rcases Nat.eq_zero_or_pos s1.count with h0 | h0
-            · have := ((p1 h0).2 false s' hst2).1; cases this
+            · have := (p1 h0).2 false s' hst2; cases this
             · exact h0
-          exact ⟨gg2, by omega⟩
+          exact ⟨gg2, by omega, kk2⟩
         | true =>
           simp only at h
           cases hr : refine nb s2.currentBest s2.firstLeaf {} s2.op s2.sc with
@@ -499,8 +714,9 @@ theorem mainLoop_cert (hst : StablePerm) (hx : ExpandCert) (hy : ExpandStale) {n
             obtain ⟨r1, r2, r3, r4, _, _, _, z1, z2, z3, _⟩ := refine_inv hst c2.part c2.age c2.scr hr
             have htc : n ≤ s2.sc.timesSeen.data.size := by rw [hsc, esc]; exact hI.tsCap
             have hvn2 : VN nb s2.currentBest s2.firstLeaf s2.op := by rw [hcb, hfl]; exact n2 rfl
-            obtain ⟨rc1, rc2⟩ := refine_cert hst hx hy c2.part c2.age c2.scr hvn2 hr
-            refine ih worse' _ s' ?_ ?_ ?_ h
+            obtain ⟨rc1, rc2⟩ := refine_cert hst hx c2.part c2.age c2.scr hvn2 hr
+            refine ih worse' _ s' ?_ ?_ ?_ (by exact ⟨kk2.best, kk2.first, kk2.gens⟩)
+              (by exact hO.refine _ _ _ _ _ _ _ _ c2.part c2.age c2.scr po2 hr) h
             · constructor
               · constructor
                 · exact r1
@@ -518,10 +734,8 @@ theorem mainLoop_cert (hst : StablePerm) (hx : ExpandCert) (hy : ExpandStale) {n
                 have h0' : s1.count = 0 := by
                   have : s2.count = 0 := h0
                   omega
-                obtain ⟨q1, q2⟩ := p1 h0'
-                obtain ⟨_, q3, q4⟩ := q2 true s2 hst2
-                have hcb0 : s2.currentBest.len = 0 := by rw [hcb]; exact q1
-                exact ⟨hcb0, refine_phase1 hst c2.part c2.age c2.scr q3 q4 hcb0 rfl hr⟩
+                show s2.currentBest.len = 0
+                rw [hcb]; exact (p1 h0').1
               · intro hpos
                 have : 0 < s1.count := by
                   have : 0 < s2.count := hpos
@@ -551,50 +765,55 @@ theorem dsSlice_spec {a : Array Int} {n : Nat} {ds rest : Array Int} (h : dsSlic
   · cases h
 
 set_option maxHeartbeats 1000000 in
-/-- generators and orbits returned by `CanonicalIsomorphAllocated` (case `n > 0`, `m > 0`, no viability check) -/
-theorem allocated_cert (hst : StablePerm) (hx : ExpandCert) (hy : ExpandStale) {fuel n m : Nat} {nb : Nbrs}
+/-- generators and orbits returned by `CanonicalIsomorphAllocated` (general path, no viability check) -/
+theorem allocated_cert (hst : StablePerm) (hx : ExpandCert) {fuel n m : Nat} {nb : Nbrs}
+    {PO : OP → Prop} {PL R : List Nat → Prop} (hO : OrdQ n nb PO PL R)
     {op0 : OP} {st : Storage} {opts : Options} {r : Res} {opR : Option OP} {stR : Storage}
-    (hn : n ≠ 0) (hm : m ≠ 0) (hv : opts.checkViability = false)
-    (hp : PartInv n op0) (ha : AgeInv op0) (hage : op0.age = 0) (hcl : CleanPrefix op0) (hspl : op0.spl = 0)
-    (hval : op0.value.len = 0)
+    (hn : n ≠ 0) (hgen : m = 0 → op0.binDividers.len ≠ 1) (hv : opts.checkViability = false)
+    (hp : PartInv n op0) (ha : AgeInv op0) (hage : op0.age = 0) (hspl : op0.spl = 0)
+    (hval : op0.value.len = 0) (hpo : PO op0)
     (hnb : NbOK nb n) (hlenm : ∀ o : List Nat, o.Perm (List.range n) → (certPos nb o n).length = m)
-    (he : HasEdge nb n)
     (h : canonicalIsomorphAllocated fuel n m nb (some op0) st opts = .ok (r, opR, stR)) :
-    ∃ gs ds, r.gens = some gs ∧ r.orbits = some ds ∧ (∀ γ ∈ gs, IsAutL nb n γ) ∧ ds.length = n ∧
+    ∃ gs ds, r.gens = some gs ∧ r.orbits = some ds ∧ (∀ γ ∈ gs, IsAutL nb n γ ∧ R γ) ∧ ds.length = n ∧
       Disjoint.Inv ds.toArray ∧
       ∀ a b, a < n → b < n → Disjoint.rep ds.toArray a = Disjoint.rep ds.toArray b →
         EqvGen (fun x y => ∃ γ ∈ gs, γ[x]? = some y) a b := by
-  have hno : NoEarlierNbr nb op0 := by intro _ j u v q hj; rw [hspl] at hj; omega
   unfold canonicalIsomorphAllocated at h
-  rw [if_neg hn, if_neg hm] at h
+  rw [if_neg hn] at h
+  have hshort : (if m = 0 then (match (some op0 : Option OP) with
+      | none => Outcome.panic
+      | some o => Outcome.ok (o.binDividers.len == 1)) else Outcome.ok false) = Outcome.ok false := by
+    by_cases hm : m = 0
+    · rw [if_pos hm]; simp [hgen hm]
+    · rw [if_neg hm]
+  simp only [hshort] at h
   osplit h
   · rename_i hvw
     simp [hv] at hvw
-  · rename_i _ _ _ _ bestPath bestPerm bestPermInv bestOrbits bestRest _ hbpm hbpi hbo _ _ _ _ firstLeaf flPermInv flOrbits flRest flPath hfl hfpi hfo _ _ _ _ space dws nbs _ _ _ _ _ _ timesSeen maxCell numberOfMax hts hmc hnm _ op00 hop _ worse op1 sc1 href hvw _ s hmain
-    cases hop
+  · rename_i _ _ _ _ bestPath bestPerm bestPermInv bestOrbits bestRest _ hbpm hbpi hbo _ _ _ _ firstLeaf flPermInv flOrbits flRest flPath hfl hfpi hfo _ _ _ _ space dws nbs _ _ _ _ _ _ timesSeen maxCell numberOfMax hts hmc hnm _ worse op1 sc1 href hvw _ w2 op2 hexp _ s hmain
     cases h
     obtain ⟨w1, l1, d1⟩ := slOf_spec hts
-    obtain ⟨w2, l2, d2⟩ := slOf_spec hmc
+    obtain ⟨w2', l2, d2⟩ := slOf_spec hmc
     obtain ⟨w3, l3, d3⟩ := slOf_spec hnm
     obtain ⟨w4, l4, d4⟩ := slOf_spec hbpm
     obtain ⟨w5, l5, _⟩ := slOf_spec hbpi
     obtain ⟨w6, l6, _⟩ := slOf_spec hfl
     obtain ⟨w7, l7, _⟩ := slOf_spec hfpi
-    have hsc : ScratchOK n (Scratch.mk dws nbs space timesSeen maxCell numberOfMax) := ⟨w1, w2, w3, l2, l3⟩
+    have hsc : ScratchOK n (Scratch.mk dws nbs space timesSeen maxCell numberOfMax) := ⟨w1, w2', w3, l2, l3⟩
     obtain ⟨r1, r2, r3, r4, _, _, _, z1, z2, z3, _⟩ := refine_inv hst hp ha hsc href
     have z1' : sc1.timesSeen.data.size = timesSeen.data.size := z1
-    have hph := refine_phase1 hst hp ha hsc hcl hno (cb := ⟨st.currentBest, 0⟩) rfl hv href
     have hwf := refine_not_worse (cb := ⟨st.currentBest, 0⟩) rfl hv href
     have htc : n ≤ timesSeen.data.size := by have := w1; unfold Sl.WF at this; omega
-    -- the initial certificate state
-    have hvc0 : VClean nb op0 := by
-      refine ⟨hcl, by unfold Sl.WF; omega, ?_⟩
-      rw [hspl]
-      simp [Sl.toList, hval, certPos]
-    obtain ⟨rc1, rc2⟩ := refine_cert hst hx hy hp ha hsc (cb := ⟨st.currentBest, 0⟩) (fl := firstLeaf)
-      (nb := nb) (Or.inl hvc0) href
+    -- the certificate state after the initial refinement and the initial `expandValue`
+    obtain ⟨i1, i2, i3⟩ := refine_cert_init hst hx hp ha hsc hspl hval (cb := ⟨st.currentBest, 0⟩) (fl := firstLeaf)
+      (nb := nb) rfl href
+    have hw2 : w2 = false := by
+      unfold expandValue at hexp
+      exact expandLoop_not_worse (cb := ⟨st.currentBest, 0⟩) rfl _ _ _ _ _ hexp
+    have hvc2 : VClean nb op2 := (hx n nb ⟨st.currentBest, 0⟩ firstLeaf op1 op2 w2 r1 i1 i2 i3 hexp).1 hw2
+    obtain ⟨f1, f2, f3, _, f5, f6⟩ := expandValue_frame hexp
     have hI : MInv n m nb
-        { op := op1,
+        { op := op2,
           sc := { dws := ⟨sc1.dws.data, n⟩, nbs := ⟨sc1.nbs.data, n⟩, space := ⟨sc1.space.data, n⟩,
                   timesSeen := ⟨sc1.timesSeen.data, n⟩, maxCell := ⟨sc1.maxCell.data, n⟩,
                   numberOfMax := ⟨sc1.numberOfMax.data, n⟩ },
@@ -604,20 +823,20 @@ theorem allocated_cert (hst : StablePerm) (hx : ExpandCert) (hy : ExpandStale) {
           path := [], choices := [], skipDeage := false } := by
       constructor
       · constructor
-        · exact r1
-        · exact r2
+        · exact PartInv.of_frame r1 f1 f2 f3 f6
+        · exact AgeInv.of_frame r2 f3 f5
         · exact scratch_rewrap hsc htc z1 z2 z3
         · exact w4
         · exact l4
-        · intro hc; exact absurd rfl hc
+        · intro hc; exact absurd hc (Nat.lt_irrefl 0)
       · exact ⟨[], by simp [LevelsOK]⟩
-      · show op1.age = _; rw [r3, hage]; rfl
+      · show op2.age = _; rw [f5, r3, hage]; rfl
       · rfl
       · show n ≤ sc1.timesSeen.data.size; omega
-      · intro _; exact ⟨rfl, hph.1, hph.2⟩
+      · intro _; rfl
       · intro hc; exact absurd hc (Nat.lt_irrefl 0)
     have hC : CInv n m nb
-        { op := op1,
+        { op := op2,
           sc := { dws := ⟨sc1.dws.data, n⟩, nbs := ⟨sc1.nbs.data, n⟩, space := ⟨sc1.space.data, n⟩,
                   timesSeen := ⟨sc1.timesSeen.data, n⟩, maxCell := ⟨sc1.maxCell.data, n⟩,
                   numberOfMax := ⟨sc1.numberOfMax.data, n⟩ },
@@ -627,20 +846,20 @@ theorem allocated_cert (hst : StablePerm) (hx : ExpandCert) (hy : ExpandStale) {
           path := [], choices := [], skipDeage := false } worse := by
       constructor
       · constructor
-        · intro hc; exact absurd rfl hc
+        · intro hc; exact absurd hc (Nat.lt_irrefl 0)
         · exact ⟨l6, w6⟩
         · intro hc; exact absurd hc (Nat.lt_irrefl 0)
         · intro k hk; exact absurd hk (Nat.not_lt_zero _)
         · intro hc; exact absurd hc (Nat.lt_irrefl 0)
-        · intro hc; exact absurd hc (Nat.lt_irrefl 0)
         · exact ⟨dsSlice_spec hfo, dsSlice_spec hbo⟩
         · exact ⟨l7, w7⟩
         · exact ⟨l5, w5⟩
-      · intro hw'; exact rc1 hw'
-      · cases worse with
-        | false => exact (rc1 rfl).any
-        | true => exact rc2 rfl
-    obtain ⟨q1, q2⟩ := mainLoop_cert hst hx hy hnb hlenm (Nat.pos_of_ne_zero hm) he fuel worse _ s hI (fun _ => hwf) hC hmain
+      · intro _; exact hvc2
+      · exact Or.inl hvc2
+    have hpo2 : PO op2 := hO.frame _ _ f1 f2 f3 (hO.refine _ _ _ _ _ _ _ _ hp ha hsc hpo href)
+    obtain ⟨q1, q2, q3⟩ := mainLoop_cert hst hx hO hnb hlenm fuel worse _ s hI (fun _ => hwf) hC
+      ⟨fun hc => absurd hc (Nat.lt_irrefl 0), fun hc => absurd hc (Nat.lt_irrefl 0),
+        fun k hk => absurd hk (Nat.not_lt_zero _)⟩ hpo2 hmain
     obtain ⟨o1, o2⟩ := q1.orb q2
     refine ⟨_, _, rfl, rfl, ?_, ?_, ?_, ?_⟩
     · intro γ hγ
@@ -650,9 +869,11 @@ theorem allocated_cert (hst : StablePerm) (hx : ExpandCert) (hy : ExpandStale) {
       split at hk
       · rename_i hkn
         obtain ⟨γ', g1, g2⟩ := q1.gens k hkn
+        obtain ⟨γ'', g1', g2'⟩ := q3.gens k hkn
         rw [Array.getElem?_toList] at hk
+        rw [g1] at g1'; cases g1'
         rw [g1] at hk; cases hk
-        exact g2
+        exact ⟨g2, g2'⟩
       · cases hk
     · simp [q1.orbSz.1]
     · simpa using o1
